@@ -423,8 +423,11 @@ pub fn c10(ctx: &Ctx) -> Report {
         }
     });
     rep.evaluations += lattice * 120;
+    // every state set_phase can leave behind must satisfy the per-state oracle too
+    set_phase_sweep(ctx, &mut rep, if ctx.tier.is_thorough() { 1 } else { 64 }, &["C10"]);
+    rep.exhaustive = true;
     // history independence is checked by the C11 exploration machine; run a small instance here too
-    let m = LfoM::new(1000.0, vec![0.0, 1.0, 250.0, 999.0], vec![0.0, 0.25, 0.999, -0.3, 7.5]);
+    let m = LfoM::new(1000.0, vec![0.0, 1.0, 250.0, 999.0], vec![0.0, 0.25, 0.999, 0.999_999_94, -0.3, 7.5]);
     let d = if ctx.tier.is_thorough() { 7 } else { 5 };
     explore(m, &ExploreCfg { max_depth: Some(d), state_cap: 30_000_000, threads: ctx.threads, label: format!("history independence, depth {}", d) }, &mut rep, &["C10"]);
     rep.require_nonzero("states_checked");
@@ -457,9 +460,44 @@ pub fn c12(ctx: &Ctx) -> Report {
     for &k in incs {
         walk_all(ctx, &mut rep, k, false, true, false, if ctx.tier.is_thorough() { None } else { Some(7) });
     }
+    // start phases positioned with set_phase (not reached by ticking), then one tick at a small increment
+    let nstart: u64 = if ctx.tier.is_thorough() { 1 << 22 } else { 1 << 17 };
+    par_ranges(ctx, &mut rep, nstart, 256, |_, lo, hi, lc| {
+        let mut fnd: Vec<Finding> = Vec::new();
+        for i in lo..hi {
+            let p = ((i as f64 + 0.37) / nstart as f64) as f32;
+            for k in [1u32, 3] {
+                let mut l = Lfo::new(FS0);
+                l.set_frequency(inc_freq(k));
+                l.set_phase(if i % 5 == 4 { -p } else { p });
+                let (c0, s0) = match (phase_of(&l), std::panic::catch_unwind(std::panic::AssertUnwindSafe(|| read(&l)))) {
+                    (Ok(c), Ok(s)) => (c, s),
+                    _ => continue, // a state outside the cycle is C10 / C11's finding
+                };
+                l.tick();
+                let s1 = read(&l);
+                if let Ok(c1) = phase_of(&l) {
+                    c12_pair(c0, &s0, c1, &s1, &mut fnd);
+                    lc.count("pairs_checked", 1);
+                    lc.count("pairs_starting_from_set_phase", 1);
+                }
+                for (pp, cc, d) in fnd.drain(..) {
+                    lc.violation(viol(pp, &format!("{}-after-set-phase", cc), d, FS0, vec![format!("freq:{:?}", inc_freq(k)), format!("phase:{:?}", if i % 5 == 4 { -p } else { p }), "tick".into()]));
+                }
+            }
+        }
+    });
+    rep.states += nstart * 2;
+    rep.transitions += nstart * 2;
+    rep.traces += nstart * 2;
+    // histories: tick / set_frequency / set_phase / reset in any order, slope oracle on every tick
+    let d = if ctx.tier.is_thorough() { 7 } else { 5 };
+    let m = LfoM::new(1000.0, vec![0.0, 0.01, 1.0, 250.0], vec![0.0, 0.25, 0.5004883, 0.999, -0.3]);
+    explore(m, &ExploreCfg { max_depth: Some(d), state_cap: 30_000_000, threads: ctx.threads, label: format!("tick / set_frequency / set_phase / reset histories, depth {}", d) }, &mut rep, &["C12"]);
     rep.nontrivial = rep.counters.get("pairs_checked").copied().unwrap_or(0);
     rep.require_nonzero("pairs_checked");
     rep.require_nonzero("pairs_across_wrap");
+    rep.require_nonzero("pairs_starting_from_set_phase");
     rep.exhaustive = true;
     rep.sample(json!({"script": {"machine": "lfo", "config": {"fs": 1024.0}, "ops": ["freq:1023.99994", "tick", "freq:6.1035156e-5", "tick"]}, "meaning": "the step from the last phase of a cycle into the next cycle"}));
     rep.assumptions.push("the quick tier checks all 2^24 adjacent pairs at increment 1 and every 7th start phase at the larger increments; the thorough tier all start phases".into());
@@ -472,42 +510,7 @@ pub fn c11(ctx: &Ctx) -> Report {
     let mut rep = Report::new();
     rep.rule.push("(a) E2 over f32 bit patterns p for set_phase(p) (thorough: all 2^32; quick: every 16th pattern plus neighbourhoods of powers of two); (b) E2 over a frequency x sample-rate grid, one tick each; (c) E1 bounded-depth exploration of tick/set_frequency/set_phase/reset histories; non-trivial = finite patterns + grid points with a non-zero advance + explored transitions".into());
     // (a)
-    let stride: u64 = if ctx.tier.is_thorough() { 1 } else { 16 };
-    let n = (1u64 << 32) / stride;
-    par_ranges(ctx, &mut rep, n, 1024, |_, lo, hi, lc| {
-        let mut l = Lfo::new(48000.0);
-        let mut l2 = Lfo::new(48000.0);
-        let mut fnd: Vec<Finding> = Vec::new();
-        for i in lo..hi {
-            let bits = (i * stride) as u32;
-            set_phase_case(bits, &mut l, &mut l2, lc, &mut fnd);
-        }
-    });
-    if stride != 1 {
-        // neighbourhoods: every exponent boundary +- 64 patterns, both signs
-        let mut pats: Vec<u32> = Vec::new();
-        for e in 0..256u32 {
-            for d in -64i64..=64 {
-                let b = ((e as i64) << 23) + d;
-                if b >= 0 && b < (1i64 << 31) {
-                    pats.push(b as u32);
-                    pats.push(b as u32 | 0x8000_0000);
-                }
-            }
-        }
-        let pr = &pats;
-        par_ranges(ctx, &mut rep, pats.len() as u64, 64, |_, lo, hi, lc| {
-            let mut l = Lfo::new(48000.0);
-            let mut l2 = Lfo::new(48000.0);
-            let mut fnd: Vec<Finding> = Vec::new();
-            for i in lo..hi {
-                set_phase_case(pr[i as usize], &mut l, &mut l2, lc, &mut fnd);
-            }
-        });
-        rep.exhaustive = false;
-    }
-    rep.evaluations += n;
-    rep.subruns.push(json!({"engine": "E2-sweep", "what": "set_phase over f32 bit patterns", "patterns": n, "stride": stride}));
+    set_phase_sweep(ctx, &mut rep, if ctx.tier.is_thorough() { 1 } else { 16 }, &["C11"]);
     // reset
     {
         let mut l = lfo_at(12345);
@@ -577,13 +580,56 @@ pub fn c11(ctx: &Ctx) -> Report {
                     lc.violation(viol(p, c, d, fs, vec![format!("phase:{:?}", start as f32 / 16777216.0), format!("freq:{:?}", f), "tick".into(), "tick".into()]));
                 }
             }
+            // a frequency change takes effect from the next tick, however small the change: neighbours of f within
+            // a fraction of one counter step and within a few ulps, and a creeping chain of such changes
+            let step = fs / 16777216.0;
+            let mut l = Lfo::new(fs);
+            l.set_frequency(f);
+            l.tick();
+            let mut script = vec![format!("freq:{:?}", f), "tick".to_string()];
+            let mut cur = f;
+            for (k, delta) in [0.4f32, -0.8, 0.3, 0.3, 0.3, 0.3, -0.45, 0.9, -0.999, 0.999].iter().enumerate() {
+                let mut g = cur + delta * step;
+                if k % 3 == 2 {
+                    g = f32::from_bits(cur.to_bits().wrapping_add(1));
+                }
+                if !(g >= 0.0 && g <= fs) || g == cur {
+                    continue;
+                }
+                let c0 = match phase_of(&l) {
+                    Ok(c) => c,
+                    Err(_) => break,
+                };
+                l.set_frequency(g);
+                l.tick();
+                script.push(format!("freq:{:?}", g));
+                script.push("tick".to_string());
+                let c1 = match phase_of(&l) {
+                    Ok(c) => c,
+                    Err(_) => break,
+                };
+                c11_tick(fs, g, c0, c1, &mut fnd);
+                lc.count("small_frequency_changes", 1);
+                let i0 = (cur as f64 / fs as f64 * M24 as f64).floor();
+                let i1 = (g as f64 / fs as f64 * M24 as f64).floor();
+                if i0 != i1 {
+                    lc.count("small_frequency_changes_crossing_a_counter_step", 1);
+                }
+                if !fnd.is_empty() {
+                    for (p, _c, d) in fnd.drain(..) {
+                        lc.violation(viol(p, "small-frequency-change-ignored", d, fs, script.clone()));
+                    }
+                    break;
+                }
+                cur = g;
+            }
         }
     });
     rep.evaluations += rates.len() as u64 * (nf + 65) * 5;
     rep.subruns.push(json!({"engine": "E2-sweep", "what": "frequency x sample-rate grid, one tick from 5 start phases", "rates": rates, "frequencies_per_rate": nf + 65}));
     // (c)
     for (fs, d) in [(1000.0f32, if ctx.tier.is_thorough() { 7 } else { 5 }), (192000.0, if ctx.tier.is_thorough() { 6 } else { 4 })] {
-        let m = LfoM::new(fs, vec![0.0, 1.0, fs / 16777216.0, fs / 4.0, fs * 0.999, fs], vec![0.0, 0.25, 0.999_999_9, -0.3, 7.5, -1.0e10]);
+        let m = LfoM::new(fs, vec![0.0, 1.0, fs / 16777216.0, fs / 4.0, fs * 0.999, fs, fs / 16777216.0 * 1000.7, fs / 16777216.0 * 1001.2], vec![0.0, 0.25, 0.999_999_9, 0.999_999_94, -0.3, 7.5, -1.0e10]);
         explore(m, &ExploreCfg { max_depth: Some(d), state_cap: 50_000_000, threads: ctx.threads, label: format!("lfo histories fs={} depth {}", fs, d) }, &mut rep, &["C11"]);
     }
     rep.nontrivial = rep.counters.get("finite_patterns").copied().unwrap_or(0) + rep.counters.get("grid_ticks_nonzero_advance").copied().unwrap_or(0) + rep.counters.get("ticks").copied().unwrap_or(0);
@@ -591,13 +637,14 @@ pub fn c11(ctx: &Ctx) -> Report {
     rep.require_nonzero("negative_patterns");
     rep.require_nonzero("grid_ticks_nonzero_advance");
     rep.require_nonzero("freq_changes");
+    rep.require_nonzero("small_frequency_changes_crossing_a_counter_step");
     rep.sample(json!({"set_phase_bits": "0x3e800000", "p": 0.25, "expected_counter": 4194304}));
     rep.sample(json!({"set_phase_bits": "0xc0f00000", "p": -7.5, "compared_with": "set_phase(-0.5)"}));
     rep.assumptions.push("phase counter read back from the up-saw output".into());
     rep
 }
 
-fn set_phase_case(bits: u32, l: &mut Lfo, l2: &mut Lfo, lc: &mut LocalCounts, fnd: &mut Vec<Finding>) {
+fn set_phase_case(bits: u32, l: &mut Lfo, l2: &mut Lfo, lc: &mut LocalCounts, fnd: &mut Vec<Finding>, props: &[&'static str]) {
     let p = f32::from_bits(bits);
     if !p.is_finite() {
         lc.count("nonfinite_patterns_skipped", 1);
@@ -605,23 +652,92 @@ fn set_phase_case(bits: u32, l: &mut Lfo, l2: &mut Lfo, lc: &mut LocalCounts, fn
     }
     lc.count("finite_patterns", 1);
     l.set_phase(p);
-    let c = match phase_of(l) {
-        Ok(c) => c,
+    let script = || vec![format!("phase:0x{:08x}", bits)];
+    // reading the waveforms in the state set_phase leaves behind must not panic
+    let shapes = std::panic::catch_unwind(std::panic::AssertUnwindSafe(|| read(l)));
+    let s = match shapes {
+        Ok(s) => s,
         Err(e) => {
-            lc.violation(viol("C11", "set-phase-range", format!("after set_phase({:?}): {}", p, e), 48000.0, vec![format!("phase:0x{:08x}", bits)]));
+            for pr in props {
+                lc.violation(viol(pr, "state-outside-cycle", format!("after set_phase({:?}) reading the waveforms panics: {}", p, panic_msg(&e)), 48000.0, script()));
+            }
+            *l = Lfo::new(48000.0);
             return;
         }
     };
-    let mirror = if p < 0.0 {
-        lc.count("negative_patterns", 1);
-        l2.set_phase(-((-p) % 1.0));
-        phase_of(l2).ok()
-    } else {
-        None
+    let c = match phase_of(l) {
+        Ok(c) => c,
+        Err(e) => {
+            if props.contains(&"C11") {
+                lc.violation(viol("C11", "set-phase-range", format!("after set_phase({:?}): {}", p, e), 48000.0, script()));
+            }
+            if props.contains(&"C10") {
+                lc.violation(viol("C10", "state-outside-cycle", format!("after set_phase({:?}): {}", p, e), 48000.0, script()));
+            }
+            return;
+        }
     };
-    let e = c11_set_phase(p, c, mirror.or(Some(0)), fnd);
-    lc.maxf("max_set_phase_error_cycles", e);
-    for (pp, cc, d) in fnd.drain(..) {
-        lc.violation(viol(pp, cc, d, 48000.0, vec![format!("phase:0x{:08x}", bits)]));
+    if props.contains(&"C10") {
+        c10_state(c, &s, fnd);
+        if s != read(&lfo_at(c)) {
+            fnd.push(("C10", "history-dependent", format!("outputs {:?} after set_phase({:?}) differ from those of an oscillator ticked to the same phase {}", s, p, c)));
+        }
     }
+    if props.contains(&"C11") {
+        let mirror = if p < 0.0 {
+            lc.count("negative_patterns", 1);
+            l2.set_phase(-((-p) % 1.0));
+            phase_of(l2).ok()
+        } else {
+            None
+        };
+        let e = c11_set_phase(p, c, mirror.or(Some(0)), fnd);
+        lc.maxf("max_set_phase_error_cycles", e);
+    }
+    for (pp, cc, d) in fnd.drain(..) {
+        if props.contains(&pp) {
+            lc.violation(viol(pp, cc, d, 48000.0, script()));
+        }
+    }
+}
+
+/// set_phase over f32 bit patterns (stride 1 = all 2^32), plus the neighbourhoods of every power of two
+fn set_phase_sweep(ctx: &Ctx, rep: &mut Report, stride: u64, props: &[&'static str]) {
+    let n = (1u64 << 32) / stride;
+    let pv: Vec<&'static str> = props.to_vec();
+    let pr = &pv;
+    par_ranges(ctx, rep, n, 1024, |_, lo, hi, lc| {
+        let mut l = Lfo::new(48000.0);
+        let mut l2 = Lfo::new(48000.0);
+        let mut fnd: Vec<Finding> = Vec::new();
+        for i in lo..hi {
+            let bits = (i * stride) as u32;
+            set_phase_case(bits, &mut l, &mut l2, lc, &mut fnd, pr);
+        }
+    });
+    if stride != 1 {
+        // neighbourhoods: every exponent boundary +- 64 patterns, both signs
+        let mut pats: Vec<u32> = Vec::new();
+        for e in 0..256u32 {
+            for d in -64i64..=64 {
+                let b = ((e as i64) << 23) + d;
+                if b >= 0 && b < (1i64 << 31) {
+                    pats.push(b as u32);
+                    pats.push(b as u32 | 0x8000_0000);
+                }
+            }
+        }
+        let patr = &pats;
+        par_ranges(ctx, rep, pats.len() as u64, 64, |_, lo, hi, lc| {
+            let mut l = Lfo::new(48000.0);
+            let mut l2 = Lfo::new(48000.0);
+            let mut fnd: Vec<Finding> = Vec::new();
+            for i in lo..hi {
+                set_phase_case(patr[i as usize], &mut l, &mut l2, lc, &mut fnd, pr);
+            }
+        });
+        rep.exhaustive = false;
+    }
+    rep.evaluations += n;
+    rep.subruns.push(json!({"engine": "E2-sweep", "what": "set_phase over f32 bit patterns", "patterns": n, "stride": stride}));
 }
